@@ -13,6 +13,16 @@ def varint(v):
             return out
 
 
+def has_cycle(prog):
+    """conservative: an infinite loop or a jump is present"""
+    for i in range(len(prog) - 1):
+        if prog[i] == 0x0c and prog[i + 1] == 0:
+            return True
+        if prog[i] == 0x12:
+            return True
+    return False
+
+
 def rand_dur(rng, allow_zero=True):
     r = rng.random()
     if allow_zero and r < 0.15:
@@ -127,8 +137,9 @@ def rand_program(rng, progress=True):
         p = p + [0x00]
     elif r < 0.4:
         p = p + [rng.choice([0x0f, 0x16, 0x42, 0xff])] + block(rng, 0, 0, progress)   # unknown opcode stops
-    elif r < 0.5 and len(p) > 2:
-        p = p[:rng.randrange(1, len(p))]       # truncated (arguments cut)
+    elif r < 0.5 and len(p) > 2 and not has_cycle(p):
+        p = p[:rng.randrange(1, len(p))]       # truncated (arguments cut); not for programs with cycles:
+                                               # a cut jump address / loop body would make a zero-time cycle
     return p[:600]
 
 
@@ -142,16 +153,6 @@ def nonprogress_program(rng):
     if k == 2:
         return pre + [0x0c, 0x00, 0x02, 0x00, 0x0d]                 # infinite loop of zero sleeps
     return pre + [0x0c, 0x00, 0x14, 0x81, 0x0d]
-
-
-def has_cycle(prog):
-    """conservative: an infinite loop or a jump is present"""
-    for i in range(len(prog) - 1):
-        if prog[i] == 0x0c and prog[i + 1] == 0:
-            return True
-        if prog[i] == 0x12:
-            return True
-    return False
 
 
 def probe_times(rng, n, cyclic=False):
